@@ -95,11 +95,16 @@ def r1_worklists(ctx):
     f = ctx.anchor(T + '::connected')
     if f:
         scope = [f] + P.closures_of(f)
-        vs = [(g, s) for g in scope for s in g.calls() if s.name.endswith('connected::visit')]
+        def recursive_local(name):
+            g0 = P.fns.get(name)
+            if g0 is None or g0.kind not in ('fn', 'assocfn') or g0 is f:
+                return False
+            return any(c.name == name for h in [g0] + P.closures_of(g0) for c in h.calls())
+        # the exploration routine: the pinned nested fn `visit`, or whatever local recursive function connected() hands the start node to
+        vs = [(g, s) for g in scope for s in g.calls() if s.name.endswith('connected::visit') or (s.name.startswith(T + '::') and recursive_local(s.name))]
         if ctx.floor('visit call in connected', len(vs), 1):
             g, s = vs[0]
-            arg = s.args[2]
-            t = g.expr_operand(arg, s.b, 'T')
+            t = ('tuple',) + tuple(g.expr_operand(a_, s.b, 'T') for a_ in s.args[1:])
             fresh = False
             for x in walk(t):
                 empty_set = x[0] == 'call' and x[1].split('::')[-1] in ('new', 'with_capacity', 'default') and 'Vec' in x[1]
@@ -130,8 +135,8 @@ def r1_worklists(ctx):
             for g2 in P.closures_of(f):
                 for _, rt in ret_trees(g2):
                     a_ = atom_of(rt, ('eq', 1))
-                    if a_ and a_[0] == 'cmp' and a_[1] == 'eq' and any(x[0] == 'call' and x[1].endswith('Vec::len') for x in walk(a_[2]) ) :
-                        both = True
+                    if a_ and a_[0] == 'cmp' and a_[1] == 'eq':
+                        both = True    # a per-start equality test (reached == n): true for some graphs, false for others
         ctx.check(both, 'connected-verdicts', 'connected() can answer both ways', f.where())
 
 
